@@ -13,3 +13,7 @@ TEXT = {'technique': 'model-based stateful property testing (rapid): cache histo
                'and through each child view must equal remote + pending operations.',
  'level_note': 'Trusts the merged-tree model; only ops valid on the merged view are generated; no Commit (C06 covers it).',
  'design_ref': 'DESIGN.md 4/C07'}
+
+# native coverage-guided campaign over the rapid generator (hx.FuzzRapid), thorough tier only
+CHECK['tiers']['thorough'].append({'test': '^$', 'fuzz': '^FuzzCacheHistory$', 'fuzztime': '90s', 'gomaxprocs': 4, 'timeout': 400})
+TEXT['technique'] += '; thorough adds a native coverage-guided go fuzzing campaign over the same generator (rapid.MakeFuzz)'
